@@ -276,8 +276,13 @@ pub mod rusl {
         /// chosen by the controller) releases it.
         pub fn futex_wait(uaddr: &AtomicU32, val: u32, flags: super::platform::FutexFlags, _t: Option<()>) -> Result<(), Error> {
             if !yield_point("fwait") {
-                // free-run mode: behave like a spurious return
+                // free-run mode: the kernel's contract without parking — EAGAIN when the word no longer holds `val`
+                // (a caller that retries on EAGAIN without re-reading the word then spins for ever: reported as
+                // livelock), otherwise a spurious return
                 std::thread::yield_now();
+                if uaddr.raw().load(core::sync::atomic::Ordering::SeqCst) != val {
+                    return Err(Error { msg: "futex", code: Some(Errno::EAGAIN) });
+                }
                 return Ok(());
             }
             let me = TID.with(|t| t.get()).unwrap();
